@@ -23,9 +23,11 @@ def register(prop, J):
              J("hostile-v1", "v1", "codecprops", "^TestC04", checks=(12000, 2000000), shards=(4, 16), prepare="prepare_codec",
                extra_pkgs=["dyn", "gendrv"], timeout=(900, 3000)),
              # native coverage-guided fuzzing (thorough tier only; a campaign cannot be pinned to a seed)
-             J("fuzz-v2", "v2", "codecprops", "^$", tiers=("thorough",), shards=(1, 1), prepare="prepare_codec",
+             J("fuzz-v2", "v2", "codecprops", "^TestC04Mutations$",  # (run pattern of the replay path)
+                tiers=("thorough",), shards=(1, 1), prepare="prepare_codec",
                extra_pkgs=["dyn", "gendrv"], timeout=(900, 1200), opts={"fuzz": "FuzzC04Decode", "fuzztime": (0, 240)}),
-             J("fuzz-v1", "v1", "codecprops", "^$", tiers=("thorough",), shards=(1, 1), prepare="prepare_codec",
+             J("fuzz-v1", "v1", "codecprops", "^TestC04Mutations$",
+                tiers=("thorough",), shards=(1, 1), prepare="prepare_codec",
                extra_pkgs=["dyn", "gendrv"], timeout=(900, 1200), opts={"fuzz": "FuzzC04Decode", "fuzztime": (0, 120)}),
          ],
          level_text="every decoder call runs under panic capture and a watchdog (30 s without progress = hang): the oracle is 'returns a "
